@@ -269,6 +269,28 @@ def r11_2(ctx):
     ctx.ob("sites-counted", len(de_sites) >= 1 and len(ser_sites) >= 1, "lib", f"{len(de_sites)} de::Error::custom and {len(ser_sites)} ser::Error::custom site(s) in {cap.file}")
 
 
+def _is_plain_conversion(lib, b, t):
+    """`.map_err(From::from)` / `.map_err(Into::into)` / `.map_err(|e| e.into())`: the spelled-out form of what
+    `?` does (the error value is boxed by the crate's blanket From impl, not replaced)."""
+    f = fn_of(t) or {}
+    if f.get("name") != "map_err" or len(t["args"]) != 2:
+        return False
+    a = t["args"][1]
+    conv = ("std::convert::From::from", "std::convert::Into::into")
+    if a.get("k") == "fn":
+        return a.get("def") in conv
+    for cid in f.get("closures", []):
+        cb = lib.by_id.get(cid)
+        if cb is None:
+            return False
+        tr = trace(cb, {"k": "copy", "p": {"l": 0, "pr": []}})
+        if not (tr.origin and tr.origin[0] == "call" and (fn_of(tr.origin[2]) or {}).get("def") in conv and all(s_[0] == "use" for s_ in tr.steps)):
+            return False
+        at = trace(cb, tr.origin[2]["args"][0])
+        return at.origin == ("arg", 2) and all(s_[0] == "use" for s_ in at.steps)
+    return False
+
+
 @rule("R11.3", 6, "top level keeps both sides: Ser arm builds (serializer error, deserializer error); Display prints both; outputs box the error unchanged", ["C11"])
 def r11_3(ctx):
     lib = ctx.lib
@@ -344,7 +366,7 @@ def r11_3(ctx):
     for fmt, o in sorted(outs.items()):
         for m in ("transcode_from", "transcode_value"):
             b = o[m]
-            bad = [fn_of(t)["name"] for _, t in b.calls() if (fn_of(t) or {}).get("name") in ("map_err", "or_else", "ok", "unwrap_or", "unwrap_or_else", "unwrap_or_default")]
+            bad = [fn_of(t)["name"] for _, t in b.calls() if (fn_of(t) or {}).get("name") in ("map_err", "or_else", "ok", "unwrap_or", "unwrap_or_else", "unwrap_or_default") and not _is_plain_conversion(lib, b, t)]
             ctx.ob(f"output:{fmt}:{m}:boxes-error-unchanged", not bad, site(b), "errors propagate through `?` (boxed by From)" if not bad else f"error is rewritten with {bad}")
 
 
